@@ -140,5 +140,26 @@ partial def loop (h : IO.FS.Stream) (out : IO.FS.Stream) (s : Sess) : IO Unit :=
     out.flush
     loop h out s'
 
-def main (_ : List String) : IO Unit := do
-  loop (← IO.getStdin) (← IO.getStdout) {}
+/-- `encode` mode: fill in `"hex"` of every op that carries abstract messages (`"msgs"`) using the
+    specification's writer `Spec.enc`; everything else is passed through. -/
+partial def encodeLoop (h : IO.FS.Stream) (out : IO.FS.Stream) : IO Unit := do
+  let line ← h.getLine
+  if line.isEmpty then return ()
+  if line.trimAscii.toString.isEmpty then encodeLoop h out else
+  match Json.parse line with
+  | .error e => throw (IO.userError s!"encode: bad json: {e}")
+  | .ok j =>
+    match j.getObjVal? "msgs" with
+    | .error _ => out.putStrLn j.compress
+    | .ok ms =>
+      match (fromJson? ms : Except String (List Spec.Msg)) with
+      | .error e => throw (IO.userError s!"encode: bad msgs: {e} in {line.take 200}")
+      | .ok msgs =>
+        let bytes := msgs.flatMap Spec.enc
+        out.putStrLn (j.setObjVal! "hex" (Json.str (toHex bytes))).compress
+    encodeLoop h out
+
+def main (args : List String) : IO Unit := do
+  match args with
+  | ["encode"] => encodeLoop (← IO.getStdin) (← IO.getStdout)
+  | _ => loop (← IO.getStdin) (← IO.getStdout) {}
